@@ -89,6 +89,7 @@ pub fn install_panic_hook() {
 }
 
 pub fn set_quiet(q: bool) {
+    let q = q && std::env::var("VERIF_LOUD").is_err();
     QUIET.with(|c| c.set(q));
 }
 
